@@ -407,6 +407,7 @@ var historyTable = []entry{
 	{"h3", "q3", "other.test", "8080"},
 	{"h4", "q4", "up.test", "8080"},
 	{"h6", "q6", "[2001:db8::6]", "80"}, // an origin named by an IPv6 literal
+	{"h1", "another-password-of-h1", "other.test", "80"}, // the same user name as the first entry, another site, another password
 }
 
 var historyRequests = []struct {
